@@ -24,6 +24,10 @@ def gen_curve(rng):
     hundred = rng.choice([U32 // 10, rng.randrange(zero, U32 // 2 + 1), U32])
     utils = sorted(rng.sample(range(1, U32), k))
     rates = sorted(rng.randrange(zero, hundred + 1) for _ in range(k))
+    if zero == 0 and k and rng.random() < 0.25:
+        # "free until x% utilisation": the first used points carry rate 0 (legal, and must be honoured by the calculator)
+        j = rng.randrange(1, k + 1)
+        rates = [0] * j + rates[j:]
     pts = list(zip(utils, rates)) + [(0, 0)] * (5 - k)
     return zero, hundred, pts
 
